@@ -41,6 +41,12 @@ def mkfile_schema(version, kind, filler=None):
     if kind == 'record2':
         vars_ = [T.Var('r1', D.NC_BYTE, [0, 1]), T.Var('f', D.NC_INT, [1]), T.Var('r2', D.NC_FLOAT, [0]), T.Var('g', D.NC_SHORT if version < 5 else D.NC_USHORT, [2])]
         return T.File(version, dims, gatts, vars_, 2)
+    if kind == 'manydims':
+        # valid but unusual: variables with 17, 30, 20 and 18 dimensions in that order (more than the 16 many code paths keep on the stack)
+        dims = [T.Dim('t', 0)] + [T.Dim('d%d' % i, 2 if i == 3 else 1) for i in range(1, 32)]
+        vars_ = [T.Var('a2', D.NC_INT, [3, 4]), T.Var('a17', D.NC_SHORT, list(range(1, 18))), T.Var('a30', D.NC_INT, list(range(1, 31))),
+                 T.Var('a20', D.NC_BYTE, list(range(2, 22))), T.Var('r18', D.NC_SHORT, [0] + list(range(1, 18)))]
+        return T.File(version, dims, gatts, vars_, 2)
     if kind.startswith('onerec-'):
         # exactly one record variable (records are then packed without padding), of a given type, 3 elements per record
         xt = int(kind.split('-')[1])
@@ -178,6 +184,12 @@ def main(tier=None):
                 name = 'ONE-v%d-x%d-np%d' % (ver, xt, np)
                 c, ctx = build_case(name, raw, f, data, np, chunk)
                 jobs.append((name, c, ctx, f, data))
+    for ver in (1, 2, 5):
+        f = mkfile_schema(ver, 'manydims'); cdf.layout(f); data = gen_data(f); raw = cdf.encode(f, data)
+        for np, chunk in ((1, None), (2, 64)):
+            name = 'DIMS-v%d-np%d' % (ver, np)
+            c, ctx = build_case(name, raw, f, data, np, chunk)
+            jobs.append((name, c, ctx, f, data))
     # (2) every header token at every offset relative to a chunk end
     chunks = [36, 40, 44, 48, 52, 64, 100] if thorough else [36, 44, 64]
     for ver in (1, 2, 5):
@@ -204,7 +216,7 @@ def main(tier=None):
         judge(ck, name, c, ctx, r, f, data)
     ck.cov['distinct_nontrivial'] = len(set(j[1].ops[1] for j in jobs))
     ck.cov['rule'] = ('files produced by the independent encoder: 4 schemas x 3 formats x layout freedoms {gaps before/between variables, gap before the record section, vsize correct/0/stale/all-ones, '
-                      'ABSENT vs tag+0 empty lists, non-zero bytes in free space} x {np, header chunk size via hook, collective header read, safe mode}; a file with exactly one record variable for every external type of each format; every variable is read whole, record by record and at its last element; every header token placed at every 4-byte offset '
+                      'ABSENT vs tag+0 empty lists, non-zero bytes in free space} x {np, header chunk size via hook, collective header read, safe mode}; a file with exactly one record variable for every external type of each format; a file whose variables have 17, 30, 20 and 18 dimensions; every variable is read whole, record by record and at its last element; every header token placed at every 4-byte offset '
                       'relative to a chunk end for chunk sizes %s (filler attribute sweep) and around the real 256 KiB boundary; distinct_nontrivial = distinct input files' % chunks)
     ck.sample(jobs[0][1].text()[:1200]); ck.sample(jobs[len(jobs) // 2][1].text()[:1200])
     ck.assumptions += ['begins increasing in definition order within each section (as the property states)', 'hook PNETCDF_VERIF_HDR_CHUNK stands in for the hint nc_header_read_chunk_size, which the library parses but never stores']
